@@ -1020,8 +1020,9 @@ pub fn component_owner(diff: &str) -> Option<&'static str> {
 /// is charged only to the property that owns the component.
 pub fn uncovered(op: &Op) -> &'static [&'static str] {
     match op {
-        // C16 lists content, size, scrolling region, cursor and dirty rows
-        Op::Resize(..) => &["tabs", "attr", "hidden", "modes", "title", "charset", "saves", "savedepth", "savedcols"],
+        // C16 lists content, size, scrolling region, cursor and dirty rows (and quantifies over the
+        // DECCOLM round trip, so the remembered width stays with it)
+        Op::Resize(..) => &["tabs", "attr", "hidden", "modes", "title", "charset", "saves", "savedepth"],
         // C12: the modes themselves and, for DECCOLM, width, content and cursor; tab stops are C18's
         Op::Sm(..) | Op::Rm(..) => &["tabs"],
         _ => &[],
